@@ -4,7 +4,7 @@ from __future__ import annotations
 
 from .. import terms as tm
 from ..model import AnalysisError
-from .common import ob, need, call_name, resolve_ite_free
+from .common import count_form, ob, need, call_name, resolve_ite_free
 from .. import symeval
 
 PROP = "C13"
@@ -34,7 +34,7 @@ def _has_operand(c, pname):
 def rule_cropstrict(ctx, rule="C13.CROPSTRICT"):
     f = ctx.program.func("util.adjust_intervals", rule)
     s = ctx.S.get(f.qual)
-    aw = [c for c in s.calls() if c.callee == "np.argwhere" and c.args and c.args[0].op == "cmp"]
+    aw = [c for c in s.calls() if c.callee in ("np.argwhere", "np.nonzero", "np.flatnonzero", "np.where") and len(c.args) == 1 and c.args[0].op == "cmp"]  # index selections of a Boolean test
     lo = [c for c in aw if _has_operand(c.args[0], "t_min")]
     hi = [c for c in aw if _has_operand(c.args[0], "t_max")]
     need(len(lo) == 1 and len(hi) == 1, rule, "adjust_intervals: crop selections (np.argwhere over t_min / t_max) not found")
@@ -73,7 +73,7 @@ def rule_cropstrict(ctx, rule="C13.CROPSTRICT"):
     # events analogue
     f = ctx.program.func("util.adjust_events", rule)
     s = ctx.S.get(f.qual)
-    aw = [c for c in s.calls() if c.callee == "np.argwhere" and c.args and c.args[0].op == "cmp"]
+    aw = [c for c in s.calls() if c.callee in ("np.argwhere", "np.nonzero", "np.flatnonzero", "np.where") and len(c.args) == 1 and c.args[0].op == "cmp"]  # index selections of a Boolean test
     lo = [c for c in aw if _has_operand(c.args[0], "t_min")]
     hi = [c for c in aw if _has_operand(c.args[0], "t_max")]
     need(len(lo) == 1 and len(hi) == 1, rule, "adjust_events: crop selections not found")
@@ -121,6 +121,29 @@ def rule_sides(ctx):
                 good_store = good_store and any(x.op == "iter" and x.a[0].op == "param" and x.a[0].a[0] == "labels" for x in tm.walk(val))
         lid = rt.a[0]
         it = s.loops.get(lid, (None, None))[1]
+        good_order = it is not None and it.op == "call" and call_name(it) == "builtins.zip" and len(it.a[1]) == 3 and it.a[1][0] is starts.term and it.a[1][1] is ends.term
+    if rt.op == "comp" and rt.a[0] == "list" and len(rt.a[2]) == 1 and rt.a[2][0].op == "loop" and rt.a[1].op == "ite":
+        # index-array form: owner[k] = position of the covering interval's label in a pool, -1 where none covers;
+        # the result is [fill_value if owner[k] < 0 else pool[owner[k]] for k]
+        O = rt.a[2][0]
+        c, a_, b_ = rt.a[1].a
+        each_o = [z for z in tm.walk(c) if z.op == "iter" and z.a[0] is O]
+        sentinel_test = c.op == "cmp" and c.a[0] == "<" and tm.is_const(c.a[2], 0) and bool(each_o)
+        init, body = O.a[2], O.a[3]
+        neg_init = init.op == "call" and call_name(init) == "np.full" and len(init.a[1]) >= 2 and "time_points" in tm.params_of(init.a[1][0]) and init.a[1][1].op == "const" and isinstance(init.a[1][1].a[0], float) and init.a[1][1].a[0] < 0
+        good_init = sentinel_test and neg_init and a_.op == "param" and a_.a[0] == "fill_value"
+        pool = b_.a[0] if b_.op == "sub" and each_o and b_.a[1] is each_o[0] else None
+        lid = O.a[0]
+        it = s.loops.get(lid, (None, None))[1]
+        for bb in resolve_ite_free(body):
+            if bb.op == "upd" and bb.a[1] == "setitem" and bb.a[2].op == "slice":
+                lo, hi, st = bb.a[2].a
+                good_store = lo.op == "iter" and lo.a[0] is starts.term and hi.op == "iter" and hi.a[0] is ends.term and tm.is_const(st, None)
+                val = bb.a[3]
+                # the stored position is the pool's length at that iteration, and the pool gets this interval's label then
+                cf = count_form(val)
+                pool_ok = pool is not None and pool.op == "comp" and pool.a[4] == lid and pool.a[1].op == "iter" and pool.a[1].a[0].op == "param" and pool.a[1].a[0].a[0] == "labels" and not pool.a[3]
+                good_store = good_store and cf is not None and cf[1].op == "loopvar" and cf[1].a[0] == lid and pool_ok
         good_order = it is not None and it.op == "call" and call_name(it) == "builtins.zip" and len(it.a[1]) == 3 and it.a[1][0] is starts.term and it.a[1][1] is ends.term
     yield ob(R, f, "util.interpolate_intervals:prefill", good_init, "result starts as [fill_value] * len(time_points)")
     yield ob(R, f, "util.interpolate_intervals:assign", good_store, "aligned_labels[start:end] receives the interval's own label")
